@@ -635,8 +635,18 @@ func (g *Gen) interference(h *Heap, guard string, why string) *Heap {
 	if len(names) == 0 {
 		return h
 	}
+	_, hasCause := g.specs.Ghosts["causeOk"]
+	if hasCause {
+		names = append(names, "G.causeOk")
+	}
 	h2 := h.HavocVars(names)
 	g.assumeMonotone(h, h2, guard, names)
+	if hasCause {
+		// the cause of a cancellation is fixed by the first cancel: only contexts not yet cancelled can get one
+		srt := ArrSort(SInt, SBool)
+		c0, k0, k1 := h.Get("G.cancelled", srt), h.Get("G.causeOk", srt), h2.Get("G.causeOk", srt)
+		g.vc.AssumeAt(guard, fmt.Sprintf("(forall ((c Int)) (! (=> (select %s c) (= (select %s c) (select %s c))) :pattern ((select %s c))))", c0, k1, k0, k1), "cause of an already cancelled context is fixed")
+	}
 	return h2
 }
 
